@@ -77,6 +77,12 @@ func runOBJ(src *choice.Source, st *Stats) (fs []Finding) {
 	st.Files++
 	st.Sample = map[string]any{"kind": "obj", "faces": len(tris)}
 
+	guard := guardInput("obj", tris)
+	defer func() {
+		if f := guard(); f != nil && len(fs) == 0 {
+			fs = append(fs, *f)
+		}
+	}()
 	o, m := model3d.BuildMaterialOBJ(tris, cf)
 	if f := checkOBJ("obj_material", o, tris, false); f != nil {
 		fs = append(fs, *f)
@@ -266,8 +272,12 @@ func run3MF(src *choice.Source, st *Stats) (fs []Finding) {
 	st.MapDep = "Write3MF serialises through a Mesh (Go map order) and deflate, so the file length varies between runs"
 	tris := genMesh(src, meshgen.AllowPlain|1<<meshgen.FlNineDigits|1<<meshgen.FlSignedZero, st)
 	w := simio.NewWriter(simio.WriteFaults{})
+	guard := guardInput("3mf", tris)
 	if err := model3d.Write3MF(w, fileformats.ThreeMFUnitMillimeter, tris); err != nil {
 		return []Finding{{"3mf|write-error", err.Error()}}
+	}
+	if f := guard(); f != nil {
+		return []Finding{*f}
 	}
 	st.Files++
 	st.Bytes += int64(len(w.Buf))
